@@ -217,6 +217,19 @@ pub fn run(ctx: &Ctx) -> Report {
     });
     let (succ, load_succ) = parts.into_inner().unwrap();
     let g = Graph { succ, load_succ };
+    // structural agreement: a word loads a FIRST opcode byte (successors of loaded byte b lie at
+    // the entry of b's routine) exactly if it carries the instruction-end marker
+    for a in 0..512usize {
+        if is_zero_word(a) {
+            continue;
+        }
+        let decodes_first_byte = is_ir_load(a) && (0x10..=0xFFu16).step_by(0x10).all(|b| {
+            g.load_succ.get(&(a as u16, b as u8)).map(|v| !v.is_empty() && v.iter().all(|n| (n.0 >> 5) == (b >> 4) && n.0 & 0x1C == 0)).unwrap_or(false)
+        });
+        if decodes_first_byte != is_done_word(a) {
+            rep.violate("C09:instruction-end-marker", format!("micro-address {:#05x}: {} a first opcode byte but is {}marked as the end of an instruction", a, if decodes_first_byte { "fetches" } else { "does not fetch" }, if is_done_word(a) { "" } else { "not " }), obj![("micro_address", a)]);
+        }
+    }
     let fetch_words: Vec<u16> = (0..512usize).filter(|a| is_done_word(*a) && is_ir_load(*a)).map(|a| a as u16).collect();
     rep.count("fetch_words", fetch_words.len() as u64);
     let mut all_nodes: HashSet<Node> = HashSet::new();
